@@ -11,7 +11,7 @@ of every probe in the same state.
 import numpy as np
 
 from .. import scenes, corrsim
-from . import c02
+from . import c02, c03_tanproj
 
 ID = 'C03'
 RULE = ('corrector kind x history of 0..3 ops (S own-plane correction, R reference-plane correction, W re-wrap, '
@@ -183,6 +183,17 @@ def scenario(ctx, lines, pend):
 
 
 def run(ctx):
+    try:
+        run_histories(ctx)
+    finally:
+        # the concrete V2V3 <-> tangent-plane pipeline (oracle always; correspondence unless
+        # search_only).  In a `finally`: when a seeded change makes the history scenarios above stop
+        # with an exception (e.g. re-wrapping a corrected WCS raises), the concrete failing input
+        # found here is still recorded, and ./check keeps recorded failures when the harness stops early.
+        c03_tanproj.run_extra(ctx)
+
+
+def run_histories(ctx):
     lines, pend = [], []
     for _ in range(ctx.n(80, 2000)):
         scenario(ctx, lines, pend)
